@@ -130,6 +130,10 @@ M = [
    (SA, "import (\n", "import (\n\t\"fmt\"\n"),
    (SA, "\t\treturn newSampleIterator(iter, expr)\n", "\t\tsi, err := newSampleIterator(iter, expr)\n\t\tif err != nil {\n\t\t\treturn nil, err\n\t\t}\n\t\tkey := fmt.Sprint(qrange.Sel.Matchers)\n\t\tif c, ok := e.groupSets.Load(key); ok {\n\t\t\tg := c.([2]map[string]struct{})\n\t\t\tsi.by, si.without = g[0], g[1]\n\t\t} else {\n\t\t\te.groupSets.Store(key, [2]map[string]struct{}{si.by, si.without})\n\t\t}\n\t\treturn si, nil\n")],
   "Engine-level memo of a range aggregation's grouping sets per selector: shows only when one long-lived Engine evaluates a differently grouped query over the same selection first (Variant.Warmup)"),
+ ("E-2", ["C14"], [(D, "type Querier struct {\n\tclient client.APIClient\n}", "type Querier struct {\n\tclient client.APIClient\n\n\t// unreadable remembers containers whose log could not be opened.\n\tunreadable sync.Map\n}"), (D, "import (\n", "import (\n\t\"sync\"\n"),
+   (D, "\t\t\tgrp.Go(func() error {\n\t\t\t\titer, err := q.openLog(ctx, ctr, start, end)\n\t\t\t\tif err != nil {\n", "\t\t\tgrp.Go(func() error {\n\t\t\t\tif _, bad := q.unreadable.Load(ctr.ID); bad {\n\t\t\t\t\titers[idx] = emptyLogIter{}\n\t\t\t\t\treturn nil\n\t\t\t\t}\n\t\t\t\titer, err := q.openLog(ctx, ctr, start, end)\n\t\t\t\tif err != nil {\n\t\t\t\t\tq.unreadable.Store(ctr.ID, true)\n"),
+   (D, "func (q *Querier) openLog(", "type emptyLogIter struct{}\n\nfunc (emptyLogIter) Next(*logstorage.Record) bool { return false }\nfunc (emptyLogIter) Err() error                  { return nil }\nfunc (emptyLogIter) Close() error                { return nil }\n\nfunc (q *Querier) openLog(")],
+  "circuit breaker on the Querier: a container whose log request failed once is skipped (treated as empty) by later selections - the first evaluation reports the error, a later one on the same Engine silently lacks that container (clause v: after faults stop)"),
 ]
 
 
